@@ -63,6 +63,8 @@ pub const BOOL_REV: usize = 5;
 pub const PB: usize = 6;
 /// a strict superset of BOOL's constructors (definite-error mutants, width relations)
 pub const BIG3: usize = 7;
+/// one constructor with a flat three-component payload of mixed types (C20: tuple patterns of width 3)
+pub const BOX3: usize = 8;
 
 pub fn data_decls() -> Vec<DataDecl> {
     vec![
@@ -74,6 +76,7 @@ pub fn data_decls() -> Vec<DataDecl> {
         DataDecl { name: "BoolR", recursive: false, ctors: vec![("+F", VT::Unit), ("+T", VT::Unit)] },
         DataDecl { name: "PB", recursive: false, ctors: vec![("+P", VT::Prod(vec![VT::Data(BOOL), VT::Data(BOOL)]))] },
         DataDecl { name: "Big3", recursive: false, ctors: vec![("+T", VT::Unit), ("+F", VT::Unit), ("+U", VT::Unit)] },
+        DataDecl { name: "Box3", recursive: false, ctors: vec![("+Box", VT::Prod(vec![VT::Int, VT::Data(BOOL), VT::Int]))] },
     ]
 }
 
